@@ -132,7 +132,7 @@ fn check_tape(tape: &[u8], gates: &Gates, codes: &[String], stats: &mut Stats, c
     std::fs::create_dir_all(&sub).unwrap();
     let mut paths = vec![];
     for (i, f) in files.iter().enumerate() {
-        let p = sub.join(format!("f{}.st", i));
+        let p = sub.join(crate::drive::set_file_name(i));
         std::fs::write(&p, f.text.as_bytes()).unwrap();
         paths.push(p.to_string_lossy().to_string());
     }
@@ -202,7 +202,7 @@ fn check_tape(tape: &[u8], gates: &Gates, codes: &[String], stats: &mut Stats, c
     // spellings (relative, ./, dir/../dir) - still the same set of files
     if choice.ratio(1, 3) && gates.want("SAME_FILE_REACHED_TWICE") {
         let i = choice.below(paths.len());
-        let name = format!("f{}.st", i);
+        let name = crate::drive::set_file_name(i);
         let spelled = match choice.below(4) {
             0 => paths[i].clone(),
             1 => format!("set/{}", name),
@@ -291,7 +291,7 @@ fn check_tape(tape: &[u8], gates: &Gates, codes: &[String], stats: &mut Stats, c
     // positions printed by the CLI equal the positions of the labels (ASCII sets)
     if let Some(b) = &base {
         for (code, file, line, col) in &b.1 {
-            if let Some(idx) = file.strip_prefix('f').and_then(|x| x.strip_suffix(".st")).and_then(|x| x.parse::<usize>().ok()) {
+            if let Some(idx) = (0..files.len()).find(|&i| crate::drive::set_file_name(i) == *file) {
                 if let Some(f) = files.get(idx) {
                     let pos = PosIndex::new(&f.text);
                     if *line == 0 || *line > pos.lines() {
